@@ -1,6 +1,7 @@
 import PortusModel.Props.C06
 import PortusModel.Props.C06Acts
 import PortusModel.Props.C06Uid
+import PortusModel.Props.Tables
 #print axioms Portus.C06.updatefield_staged
 #print axioms Portus.C06.updatefield_acts
 #print axioms Portus.C06.changeprog_staged
@@ -29,3 +30,10 @@ import PortusModel.Props.C06Uid
 #print axioms Portus.C06.install_marker_forgets
 #print axioms Portus.C06.fresh_history_keeps
 #print axioms Portus.C06.installProgram_keeps
+#print axioms Portus.Tables.src_regEnc_eq
+#print axioms Portus.Tables.src_reg_layout
+#print axioms Portus.Tables.src_msgTypes_eq
+#print axioms Portus.Tables.src_lengths_eq
+#print axioms Portus.Tables.regclasses_shared_with_libccp
+#print axioms Portus.Tables.msgtypes_shared_with_libccp
+#print axioms Portus.Tables.libccp_model_constants
